@@ -33,21 +33,21 @@ func (m MessageCertificateVerify) Type() Type {
 
 // Marshal encodes the Handshake.
 func (m *MessageCertificateVerify) Marshal() ([]byte, error) {
-	if m.HashAlgorithm > 0xFF || m.SignatureAlgorithm > 0xFF {
+	if m.HashAlgorithm > 0xFF || (m.SignatureAlgorithm > 0xFF && !m.SignatureAlgorithm.IsPSS()) {
 		return nil, dtlserrors.ErrInvalidSignHashAlgorithm
 	}
 
-	// CertificateVerify in DTLS 1.2 encodes hash/signature as 1 byte each.
-	scheme := tls.SignatureScheme(uint16(m.HashAlgorithm)<<8 | uint16(m.SignatureAlgorithm))
-	var alg signaturehash.Algorithm
-	if err := alg.Unmarshal(scheme); err != nil {
+	// Hash and signature are one byte each, except the RSA-PSS schemes which are a full uint16.
+	alg := signaturehash.Algorithm{Hash: m.HashAlgorithm, Signature: m.SignatureAlgorithm}
+	scheme := alg.Marshal()
+	var parsed signaturehash.Algorithm
+	if err := parsed.Unmarshal(tls.SignatureScheme(binary.BigEndian.Uint16(scheme))); err != nil {
 		return nil, dtlserrors.ErrInvalidSignHashAlgorithm
 	}
 
 	out := make([]byte, 1+1+2+len(m.Signature))
 
-	out[0] = byte(m.HashAlgorithm)
-	out[1] = byte(m.SignatureAlgorithm)
+	copy(out, scheme)
 	binary.BigEndian.PutUint16(out[2:], uint16(len(m.Signature))) //nolint:gosec // G115
 	copy(out[4:], m.Signature)
 
